@@ -1,5 +1,6 @@
 import Driver.Util
 import RadicaleModel.Auth
+import RadicaleModel.BasicHeader
 open Lean Radicale Radicale.Auth
 namespace Driver
 
@@ -32,6 +33,16 @@ def handleAuthGate (j : Json) : Json :=
     let c0 := HtCache.load ((getArr i "lines").map asStr) (getNat i "size") (getNat i "mtime")
     let steps := (getArr j "steps").map (fun s => ((getArr s "lines").map asStr, getNat s "size", getNat s "mtime", getStr s "login", getStr s "pw"))
     obj [("r", Json.arr ((cachedRun (schemeOf (getS j "scheme")) (asOracle j) c0 steps).map jStr).toArray)]
+  | "basicheader" =>
+    -- {"header": chars} → how the gate reads the Authorization header
+    (match BasicHeader.parse (getStr j "header") with
+     | .absent => obj [("kind", Json.str "absent")]
+     | .error => obj [("kind", Json.str "error")]
+     | .creds l p => obj [("kind", Json.str "creds"), ("login", jStr l), ("pw", jStr p)])
+  | "b64" =>
+    (match BasicHeader.b64decode (getStr j "s") with
+     | none => obj [("r", Json.null)]
+     | some bs => obj [("r", Json.arr (bs.map (fun b => jNat b.toNat)).toArray)])
   | "gate" =>
     let cfg : Cfg := ⟨backendOf (getS j "backend"), getBool j "lc", getBool j "uc", getBool j "strip"⟩
     let header : AuthHeader := match getS j "header" with
